@@ -20,7 +20,7 @@ CONSTANTS TraceFile
 \*  synchronisation runs, KeyGen has not started -- the stages reg / init / s2 of spec/Barrier.tla; the back end is STRICT there:
 \*  like the real BLS / PS back ends it does not survive a message before its Init has completed)
 States == [dispatcher |-> {"idle", "keygen-sync", "keygen-init", "keygen-sync2", "keygen-protocol", "sign-protocol", "finished"},
-           buffer     |-> {"not-started", "started", "over-limit"},
+           buffer     |-> {"not-started", "started", "over-limit", "over-topic-limit"},
            sync       |-> {"unregistered", "probing", "done"},
            blsdkg     |-> {"initialised", "after-shares", "after-commits", "finished"},
            psdkg      |-> {"initialised", "after-shares", "after-commits", "finished"},
